@@ -1,4 +1,5 @@
 pub mod alloc;
+pub mod dynmap;
 pub mod dynshape;
 pub mod gen;
 pub mod guard;
